@@ -20,8 +20,8 @@ from vlib.core import Stage, fail
 ID = "C15"
 MANIFEST = {
     "category": "exploration",
-    "text": "Schedule exploration by generated-input search with a differential oracle: deep AHBs (up to 40/100 nodes) with >= 3 free-text data elements whose inputs are pairwise different and whose expressions are dense in format constraints x content evaluation results x a schedule of yield counts consumed by the harness's asynchronous format-constraint / requirement-constraint evaluators, hints provider and package resolver. For every free-text element that the run reports, its ValidationResultInContext must equal the result of validate_data_element_freetext on a fresh copy of that element alone (nothing yields; segment status taken from the whole run); the multiset of (format-constraint key, text seen) pairs logged during the whole run must equal the union of the pairs logged by the single runs, i.e. every constraint was evaluated against its own element's input.",
-    "note": "Trusted: the schedule harness (vlib/sched.py); the format-constraint oracle function is pure in (key, text) and echoes the text, so a foreign input changes verdict or message. Interleavings are those of one asyncio event loop.",
+    "text": "Schedule exploration by generated-input search with a differential oracle: deep AHBs (up to 40/100 nodes) with >= 3 free-text data elements whose inputs are pairwise different and whose expressions are dense in format constraints x content evaluation results x a schedule of yield counts consumed by the harness's asynchronous format-constraint / requirement-constraint evaluators, hints provider and package resolver. For every free-text element that the run reports, its ValidationResultInContext must equal the result of validate_data_element_freetext on a fresh copy of that element alone (nothing yields; segment status taken from the whole run); the multiset of (format-constraint key, text seen) pairs logged during the whole run must equal the union of the pairs logged by the single runs, i.e. every constraint was evaluated against its own element's input. A drawn subset of the format-constraint methods are plain functions that read the documented context variable themselves; in the element's own run every such evaluation must have seen exactly the element's input.",
+    "note": "Trusted: the schedule harness (vlib/sched.py); the format-constraint oracle function is pure in (key, text) and echoes the text, so a foreign input changes verdict or message. Interleavings are those of one asyncio event loop. Process configuration by shard (vlib/sut.py; recorded in replay files): plain / parse caches preheated beyond their size / warnings attributed to ahbicht raised as errors / logging fully enabled with every record rendered.",
     "technique": "property-based schedule exploration with a differential oracle (element inside the concurrent run vs the element alone) and a log invariant",
 }
 LEVEL = "exploration"
@@ -57,9 +57,10 @@ def _api():
     return validate_deep_anwendungshandbuch, validate_data_element_freetext, RequirementValidationValue
 
 
-def _configure(tree, cer, delays):
+def _configure(tree, cer, delays, sync_fc=()):
     schedule = sched.Schedule(delays)
-    sut.configure(sched.make_providers(schedule, rc=cer["rc"], hints=cer["hints"], packages=tree["table"], fc_function=fc_function))
+    sut.configure(sched.make_providers(schedule, rc=cer["rc"], hints=cer["hints"], packages=tree["table"], fc_function=fc_function,
+                                       sync_fc=sync_fc))  # fmt: skip
     return schedule
 
 
@@ -70,7 +71,8 @@ def _fc_log(schedule):
 def check(case):
     deep, freetext, values = _api()
     tree, cer, soll = case["tree"], case["cer"], case["soll"]
-    schedule = _configure(tree, cer, case["delays"])
+    sync_fc = case.get("sync_fc", ())
+    schedule = _configure(tree, cer, case["delays"], sync_fc)
     whole = sut.call(deep, vtree.build(tree), soll)
     info = {"overlap": 0, "elements": 0, "nie": False}
     if not whole.ok:
@@ -92,11 +94,15 @@ def check(case):
             if element["t"] != "ft" or element["d"] not in rows:
                 continue
             info["elements"] += 1
-            alone_schedule = _configure(tree, cer, [])
+            alone_schedule = _configure(tree, cer, [], sync_fc)
             alone = sut.call(freetext, vtree.build_element(element), segment_status, soll)
             if not alone.ok:
                 fail("raises", f"validating element {element['d']} ({element['expr']['s']!r}) alone raised {alone!r}")
             single_log.update(_fc_log(alone_schedule))
+            strangers = sorted({(key, text) for key, text in _fc_log(alone_schedule) if text != element["inp"]}, key=str)
+            if strangers:
+                fail("own-input", f"element {element['d']} with input {element['inp']!r} and expression {element['expr']['s']!r}, "
+                     f"validated on its own: its format constraint methods saw {strangers} (key, text) instead of its input")  # fmt: skip
             if alone.value != rows[element["d"]]:
                 fail("element-differs", f"element {element['d']} with input {element['inp']!r} and expression "
                      f"{element['expr']['s']!r}: inside the run {rows[element['d']].validation_result}, alone {alone.value.validation_result}")  # fmt: skip
@@ -116,6 +122,7 @@ def classify(case, info):
         labels.append("NotImplementedError")
     if info["overlap"]:
         labels.append("fc-evaluations-overlap")
+    labels.append(f"context-reading-fc-methods={len(case.get('sync_fc', ()))}")
     return labels, info["overlap"] > 0
 
 
@@ -144,7 +151,9 @@ def strategy(tier):
             first["inp"] = draw(st.sampled_from([None, ""]))
         cer = draw(vtree.g_cer(weights=draw(st.sampled_from(["FFFU", "F", "FFFFUK"]))))
         delays = draw(st.lists(st.sampled_from([0, 0, 1, 2, 3, 5, 8]), min_size=3, max_size=60))
-        return {"tree": tree, "cer": cer, "soll": draw(st.booleans()), "delays": delays}
+        # which format constraint methods are plain functions that read the documented context variable themselves
+        sync_fc = draw(st.sampled_from([[], [], [vtree.FCS[0]], [vtree.FCS[-1]], list(vtree.FCS)]))
+        return {"tree": tree, "cer": cer, "soll": draw(st.booleans()), "delays": delays, "sync_fc": sync_fc}
 
     return build()
 
